@@ -203,6 +203,9 @@ class EnvObj(object):
         o.vars = dict(self.vars)
         if getattr(self, "captured", False):
             o.captured = True
+        if hasattr(self, "gen_items"):
+            o.gen_items = list(self.gen_items)
+            o.gen_pc0 = self.gen_pc0
         return o
 
 
@@ -542,6 +545,10 @@ class Interp(object):
             pa = self.to_poly(st, a, None)
             pb = self.to_poly(st, b, None)
             return P.atom(App("ite", (c, pa, pb)), T.kind_join(pa.kind, pb.kind))
+        if isinstance(a, Ref) and isinstance(b, Ref) and a.id in st.heap and b.id in st.heap and st.heap[a.id].kind == st.heap[b.id].kind and st.heap[a.id].kind in ("map", "list", "set"):
+            # two different containers selected by a condition: one container with guarded content
+            merged = self.merge_obj(st, c, st.heap[a.id], st.heap[b.id])
+            return self.alloc(st, merged)
         if isinstance(a, Ref) or isinstance(b, Ref):
             raise AnalysisError("E5.join", "join of distinct heap objects (%r / %r)" % (a, b))
         if isinstance(a, (Term, TupleVal)) and isinstance(b, (Term, TupleVal)):
